@@ -15,6 +15,8 @@ package soyjs
 //@ func (*state).walk
 //@   props C13 C14
 //@   noterm
+//@   at call template.JSEscape#0 assert[string-literal-escaped-whole;C14] len(arg1) == len(unbox(node, *ast.StringNode).Value) && forall(i, 0, len(arg1), arg1[i] == unbox(node, *ast.StringNode).Value[i])
+//@   at call template.JSEscape#1 assert[map-key-escaped-whole;C14] len(arg1) == len(k) && forall(i, 0, len(arg1), arg1[i] == k[i])
 //@   nosafety
 //@   modifies *
 //@   loop 1
@@ -56,6 +58,10 @@ package soyjs
 //@   requires[only-generator-text-or-escaped;C14] forall(i, 0, len(args), !typeis(args[i], string) || jsok(unbox(args[i], string)))
 //@ func (*state).writeRawText
 //@   like jsEmitter
+//@   ghost covered int = 0
+//@   at call template.JSEscape#* assert[escaped-chunks-tile-the-text;C14] subslice(arg1, text, covered) && (covered + len(arg1) == len(text) || text[covered+len(arg1)] < 128 || text[covered+len(arg1)] >= 192)
+//@   at call template.JSEscape#* after set covered = covered + len(arg1)
+//@   ensures[whole-text-escaped;C14] covered == len(text)
 //@ func (*state).op
 //@   like jsEmitter
 //@   requires jsok(symbol)
